@@ -16,6 +16,7 @@ RULE = ("labelled data (2-4 classes 0..k-1, d=2 (3 in thorough), 40-200 samples,
         "out-of-range samples are missing; summary numbers; stability of earlier results. distinct = digest(configuration, call "
         "sequence); non-trivial = >=3 calls incl. >=1 with removed samples")
 RULE += (" " + 'In a third of the cases the learning range is given explicitly (data_range wider than the data); evaluated sets include samples exactly ON the learned range (learning samples attaining a minimum/maximum, corners).')
+RULE += (" Between the calls the user modifies the copies handed out by get_testing_data / get_learning_data / get_omitted_data (revert_scaling, scale_factor, scale_range, shift_value, shuffle, remove_samples).")
 REQUIRED = ["argmax_class", "removed_samples_exact", "entirely_outside_raises", "summary_consistent", "earlier_results_stable",
             "testset_prefix_stable", "unlabelled_not_classified", "evaluate_consistent"]
 MIN_NONTRIVIAL = {"quick": 30, "thorough": 500}
@@ -122,6 +123,29 @@ def run_case(case, res):
     ncalls = rng.randint(2, 7)
     removed_any = False
     for ci in range(ncalls):
+        if rng.random() < 0.35:
+            # the user works with the COPIES handed out by the getters (looks at held-out samples in original coordinates,
+            # rescales them, ...): nothing of this may change the scaling fixed at learning time
+            with contextlib.redirect_stdout(io.StringIO()):
+                got = rng.choice([cl.get_testing_data, cl.get_learning_data, cl.get_omitted_data])()
+                try:
+                    if not got.is_empty():
+                        act = rng.choice(["revert", "factor", "range", "shift", "shuffle", "remove"])
+                        if act == "revert":
+                            got.revert_scaling()
+                        elif act == "factor":
+                            got.scale_factor(rng.choice([2.0, -0.5, np.array([rng.uniform(0.5, 3) for _ in range(d)])]))
+                        elif act == "range":
+                            got.scale_range((0.0, 1.0), override_scaling=rng.random() < 0.5)
+                        elif act == "shift":
+                            got.shift_value(rng.uniform(-1, 1), override_scaling=rng.random() < 0.5)
+                        elif act == "shuffle":
+                            got.shuffle()
+                        else:
+                            got.remove_samples([0])
+                        res.count("getter_copies_modified")
+                except (ValueError, IndexError):
+                    pass
         kind = rng.choice(["call", "call", "test", "test", "recall"])
         if kind == "recall" and not history:
             kind = "call"
